@@ -27,6 +27,30 @@ def norm(node: ast.AST | str) -> str:
     return " ".join(s.split())
 
 
+class AliasDict(dict):
+    """Top-level definitions of a module by name. Iteration sees the module's own definitions only; a lookup by name also
+    finds what the module merely re-exports from a sibling module (a facade left behind after code moved keeps answering for
+    the old address, the definition itself — with its own file and home module — is what is returned)."""
+
+    def __init__(self, *a, **kw):
+        super().__init__(*a, **kw)
+        self.aliases: dict = {}
+
+    def own(self, k) -> bool:
+        return dict.__contains__(self, k)
+
+    def __missing__(self, k):
+        return self.aliases[k]
+
+    def __contains__(self, k):
+        return dict.__contains__(self, k) or k in self.aliases
+
+    def get(self, k, default=None):
+        if dict.__contains__(self, k):
+            return dict.__getitem__(self, k)
+        return self.aliases.get(k, default)
+
+
 class Module:
     def __init__(self, name: str, src: str, path: str, subpackage: str | None = None):
         self.name = name  # e.g. "cursor"
@@ -42,11 +66,15 @@ class Module:
             for ch in ast.iter_child_nodes(parent):
                 ch._parent = parent  # type: ignore[attr-defined]
         self.imports: dict[str, str] = {}
-        self.functions: dict[str, ast.FunctionDef | ast.AsyncFunctionDef] = {}
-        self.classes: dict[str, ast.ClassDef] = {}
-        self.consts: dict[str, ast.expr] = {}
-        self.const_stmts: dict[str, ast.stmt] = {}
+        self.star_imports: list[str] = []
+        self.functions: dict[str, ast.FunctionDef | ast.AsyncFunctionDef] = AliasDict()
+        self.classes: dict[str, ast.ClassDef] = AliasDict()
+        self.consts: dict[str, ast.expr] = AliasDict()
+        self.const_stmts: dict[str, ast.stmt] = AliasDict()
         self._index()
+        for d_ in (self.functions, self.classes):
+            for node_ in d_.values():
+                node_._home = name  # type: ignore[attr-defined]
 
     def _index(self) -> None:
         def imports(body: list[ast.stmt]) -> None:
@@ -64,6 +92,9 @@ class Module:
                         anchor = PKG + ("." + self.subpackage if self.subpackage and s.level == 1 else "")
                         base = anchor + ("." + base if base else "")
                     for a in s.names:
+                        if a.name == "*":
+                            self.star_imports.append(base)
+                            continue
                         self.imports[a.asname or a.name] = f"{base}.{a.name}"
                 elif isinstance(s, ast.If):
                     imports(s.body)
@@ -103,7 +134,8 @@ class Module:
         m.src = "\n".join(p.src for p in parts)
         m.tree = ast.Module(body=[st for p in parts for st in p.tree.body], type_ignores=[])
         m.submodules = [p.name.split(".", 1)[1] for p in parts]
-        m.imports, m.functions, m.classes, m.consts, m.const_stmts = {}, {}, {}, {}, {}
+        m.imports, m.functions, m.classes, m.consts, m.const_stmts = {}, AliasDict(), AliasDict(), AliasDict(), AliasDict()
+        m.star_imports = [x for p in parts for x in p.star_imports if not x.startswith(f"{PKG}.{name}.")]
         for p in parts:
             m.functions.update(p.functions)
             m.classes.update(p.classes)
@@ -120,8 +152,11 @@ class Module:
         """(name, expression, statement) of every module-level text the module defines, whichever way it spells it: a constant
         (`X = "…"`, `X = f"…"`, `X = Template("…")`) or a function whose body is one `return` of such an expression
         (`def x_sql(catalog): return f"…"`), the parameters being the holes."""
-        out = [(k, v, self.const_stmts[k]) for k, v in self.consts.items()]
-        for name, fn in self.functions.items():
+        # a facade's re-exports count: the texts are reachable under this module's name
+        consts = {**getattr(self.consts, "aliases", {}), **dict(self.consts.items())}
+        fns = {**getattr(self.functions, "aliases", {}), **dict(self.functions.items())}
+        out = [(k, v, self.const_stmts[k]) for k, v in consts.items()]
+        for name, fn in fns.items():
             if "." in name:
                 continue
             body = [b for b in fn.body if not (isinstance(b, ast.Expr) and isinstance(b.value, ast.Constant))]
@@ -186,7 +221,62 @@ class Program:
         for pk, parts in packages.items():
             parts.sort(key=lambda m_: (not m_.name.endswith(".__init__"), m_.name))
             self.modules[pk] = Module.merged(pk, parts)
+            for d_ in (self.modules[pk].functions, self.modules[pk].classes):
+                for node_ in d_.values():
+                    node_._home = pk  # type: ignore[attr-defined]
+        self._link_reexports()
         self._sqlglot = None
+
+    def _link_reexports(self) -> None:
+        """names a module imports from a sibling module answer lookups on the importing module too (see AliasDict)"""
+        for m in self.modules.values():
+            pairs = list(m.imports.items())
+            for base in m.star_imports:
+                r = base.split(".")
+                src = self.modules.get(r[1]) if len(r) >= 2 and r[0] == PKG else None
+                if src is not None and src is not m:
+                    for d_ in (src.functions, src.classes, src.consts):
+                        pairs += [(k, f"{PKG}.{src.name}.{k}") for k in dict.keys(d_) if "." not in k and not k.startswith("_")]
+            for alias, target in pairs:
+                if not target.startswith(PKG + ".") or alias in m.functions and m.functions.own(alias):
+                    continue
+                loc = self.resolve(target)
+                if loc is None or "." in loc[1] or loc[0] == m.name:
+                    continue
+                home, name = self.modules[loc[0]], loc[1]
+                if home.functions.own(name) and not m.functions.own(alias):
+                    m.functions.aliases[alias] = home.functions[name]
+                elif home.classes.own(name) and not m.classes.own(alias):
+                    m.classes.aliases[alias] = home.classes[name]
+                    for q, f in dict.items(home.functions):
+                        if q.startswith(name + "."):
+                            m.functions.aliases[alias + q[len(name):]] = f
+                elif home.consts.own(name) and not m.consts.own(alias):
+                    m.consts.aliases[alias] = home.consts[name]
+                    m.const_stmts.aliases[alias] = home.const_stmts[name]
+
+    def locate(self, mod: str, name: str) -> tuple[str, str] | None:
+        """(home module, name) of a top-level name visible in `mod`: its own definition, or the sibling definition it imports"""
+        m = self.modules.get(mod)
+        if m is None:
+            return None
+        head = name.split(".")[0]
+        if any(d_.own(head) for d_ in (m.functions, m.classes, m.consts)) or m.functions.own(name):
+            return mod, name
+        tgt = m.imports.get(head)
+        if tgt is None:
+            for base in m.star_imports:
+                r = base.split(".")
+                src = self.modules.get(r[1]) if len(r) >= 2 and r[0] == PKG else None
+                if src is not None and any(d_.own(head) for d_ in (src.functions, src.classes, src.consts)):
+                    tgt = f"{PKG}.{src.name}.{head}"
+                    break
+        if tgt and tgt.startswith(PKG + "."):
+            loc = self.resolve(tgt)
+            if loc is not None:
+                rest = name[len(head):]
+                return loc[0], loc[1] + rest
+        return None
 
     # ------------------------------------------------------------------ lookup
     def mod(self, name: str) -> Module:
@@ -197,6 +287,9 @@ class Program:
     def fn(self, mod: str, qual: str) -> ast.FunctionDef:
         m = self.mod(mod)
         if qual not in m.functions:
+            home = self.locate(mod, qual)
+            if home is not None and home[0] != mod and home[1] in self.modules[home[0]].functions:
+                return self.modules[home[0]].functions[home[1]]  # type: ignore[return-value]
             raise AnalysisError(f"anchor vanished: {PKG}/{mod}.py::{qual}")
         return m.functions[qual]  # type: ignore[return-value]
 
@@ -256,7 +349,7 @@ class Program:
             if m is None or not rest:
                 return None
             head = rest[0]
-            if head in m.functions or head in m.classes or head in m.consts:
+            if m.functions.own(head) or m.classes.own(head) or m.consts.own(head):
                 return modname, ".".join(rest)
             if head in m.imports:
                 dotted = ".".join([m.imports[head], *rest[1:]])
